@@ -332,6 +332,9 @@ fn operand_json<'tcx>(
                     }
                     if let Const::Unevaluated(uv, _) = c.const_ {
                         o.push(("def", intern(st, path_of(tcx, uv.def))));
+                        if let Some(pi) = uv.promoted {
+                            o.push(("promoted", n(pi.index())));
+                        }
                     }
                     let txt = with_no_trimmed_paths!(format!("{}", c.const_));
                     let txt = if txt.len() > 160 { txt[..160].to_string() } else { txt };
@@ -477,74 +480,7 @@ fn bbn(b: BasicBlock) -> J {
     J::Int(b.index() as i128)
 }
 
-fn scan<'tcx>(tcx: TyCtxt<'tcx>, def: LocalDefId) {
-    let crate_name = tcx.crate_name(rustc_hir::def_id::LOCAL_CRATE).to_string();
-    if !CRATES.contains(&crate_name.as_str()) {
-        return;
-    }
-    let did = def.to_def_id();
-    let path = path_of(tcx, did);
-    let already = with_state(|st| !st.seen_bodies.insert(path.clone()));
-    if already {
-        return;
-    }
-    // NOTE: the global lock is never held while calling into tcx (queries re-enter
-    // mir_borrowck, e.g. const evaluation), so each body interns into its own table.
-    let mut local = State::default();
-    let (body_steal, _promoted) = tcx.mir_promoted(def);
-    if body_steal.is_stolen() {
-        with_state(|st| {
-            let mut out = String::new();
-            J::Obj(vec![("path", s(path.clone())), ("stolen", J::Bool(true))]).write(&mut out);
-            st.bodies.push(out);
-        });
-        return;
-    }
-    let body_ref = body_steal.borrow();
-    let body: &Body<'tcx> = &body_ref;
-    let env = typing_env(tcx, def);
-    let prev_root = CUR_ROOT.with(|c| c.replace(Some(tcx.typeck_root_def_id(did))));
-    struct Restore(Option<DefId>);
-    impl Drop for Restore {
-        fn drop(&mut self) {
-            CUR_ROOT.with(|c| c.set(self.0));
-        }
-    }
-    let _restore = Restore(prev_root);
-
-    {
-        let st = &mut local;
-        let mut o: Vec<(&'static str, J)> = vec![];
-        o.push(("path", s(path.clone())));
-        let kind = tcx.def_kind(did);
-        o.push(("kind", s(format!("{:?}", kind))));
-        o.push(("span", span_json(tcx, st, body.span)));
-        let sm = tcx.sess.source_map();
-        let hi = sm.lookup_char_pos(body.span.hi());
-        o.push(("end_line", n(hi.line)));
-        o.push(("argc", n(body.arg_count)));
-        if let Some(ck) = tcx.coroutine_kind(did) {
-            o.push(("coroutine", s(format!("{:?}", ck))));
-        }
-        if matches!(kind, DefKind::Closure) {
-            let parent = tcx.local_parent(def);
-            o.push(("parent", s(path_of(tcx, parent.to_def_id()))));
-        }
-        // locals
-        let mut locals: Vec<J> = vec![];
-        for (_l, decl) in body.local_decls.iter_enumerated() {
-            locals.push(intern(st, ty_str(decl.ty)));
-        }
-        o.push(("locals", J::Arr(locals)));
-        // debug info
-        let mut dbg: Vec<J> = vec![];
-        for vdi in body.var_debug_info.iter() {
-            if let rustc_middle::mir::VarDebugInfoContents::Place(p) = vdi.value {
-                dbg.push(J::Arr(vec![s(vdi.name.to_string()), place_json(tcx, st, body, p)]));
-            }
-        }
-        o.push(("dbg", J::Arr(dbg)));
-        // blocks
+fn blocks_json<'tcx>(tcx: TyCtxt<'tcx>, st: &mut State, body: &Body<'tcx>, env: ty::TypingEnv<'tcx>) -> J {
         let mut blocks: Vec<J> = vec![];
         for (_bb, data) in body.basic_blocks.iter_enumerated() {
             let mut stmts: Vec<J> = vec![];
@@ -683,7 +619,88 @@ fn scan<'tcx>(tcx: TyCtxt<'tcx>, def: LocalDefId) {
             b.push(("t", J::Obj(t)));
             blocks.push(J::Obj(b));
         }
-        o.push(("blocks", J::Arr(blocks)));
+        J::Arr(blocks)
+}
+
+fn scan<'tcx>(tcx: TyCtxt<'tcx>, def: LocalDefId) {
+    let crate_name = tcx.crate_name(rustc_hir::def_id::LOCAL_CRATE).to_string();
+    if !CRATES.contains(&crate_name.as_str()) {
+        return;
+    }
+    let did = def.to_def_id();
+    let path = path_of(tcx, did);
+    let already = with_state(|st| !st.seen_bodies.insert(path.clone()));
+    if already {
+        return;
+    }
+    // NOTE: the global lock is never held while calling into tcx (queries re-enter
+    // mir_borrowck, e.g. const evaluation), so each body interns into its own table.
+    let mut local = State::default();
+    let (body_steal, _promoted) = tcx.mir_promoted(def);
+    if body_steal.is_stolen() {
+        with_state(|st| {
+            let mut out = String::new();
+            J::Obj(vec![("path", s(path.clone())), ("stolen", J::Bool(true))]).write(&mut out);
+            st.bodies.push(out);
+        });
+        return;
+    }
+    let body_ref = body_steal.borrow();
+    let body: &Body<'tcx> = &body_ref;
+    let env = typing_env(tcx, def);
+    let prev_root = CUR_ROOT.with(|c| c.replace(Some(tcx.typeck_root_def_id(did))));
+    struct Restore(Option<DefId>);
+    impl Drop for Restore {
+        fn drop(&mut self) {
+            CUR_ROOT.with(|c| c.set(self.0));
+        }
+    }
+    let _restore = Restore(prev_root);
+
+    {
+        let st = &mut local;
+        let mut o: Vec<(&'static str, J)> = vec![];
+        o.push(("path", s(path.clone())));
+        let kind = tcx.def_kind(did);
+        o.push(("kind", s(format!("{:?}", kind))));
+        o.push(("span", span_json(tcx, st, body.span)));
+        let sm = tcx.sess.source_map();
+        let hi = sm.lookup_char_pos(body.span.hi());
+        o.push(("end_line", n(hi.line)));
+        o.push(("argc", n(body.arg_count)));
+        if let Some(ck) = tcx.coroutine_kind(did) {
+            o.push(("coroutine", s(format!("{:?}", ck))));
+        }
+        if matches!(kind, DefKind::Closure) {
+            let parent = tcx.local_parent(def);
+            o.push(("parent", s(path_of(tcx, parent.to_def_id()))));
+        }
+        // locals
+        let mut locals: Vec<J> = vec![];
+        for (_l, decl) in body.local_decls.iter_enumerated() {
+            locals.push(intern(st, ty_str(decl.ty)));
+        }
+        o.push(("locals", J::Arr(locals)));
+        // debug info
+        let mut dbg: Vec<J> = vec![];
+        for vdi in body.var_debug_info.iter() {
+            if let rustc_middle::mir::VarDebugInfoContents::Place(p) = vdi.value {
+                dbg.push(J::Arr(vec![s(vdi.name.to_string()), place_json(tcx, st, body, p)]));
+            }
+        }
+        o.push(("dbg", J::Arr(dbg)));
+        o.push(("blocks", blocks_json(tcx, st, body, env)));
+        // promoted constants (e.g. `&FunctionCode::Confirm` in comparisons)
+        {
+            let promoted_ref = _promoted.borrow();
+            let mut pj: Vec<J> = vec![];
+            for pb in promoted_ref.iter() {
+                pj.push(blocks_json(tcx, st, pb, env));
+            }
+            if !pj.is_empty() {
+                o.push(("promoted", J::Arr(pj)));
+            }
+        }
         let strs: Vec<J> = st.strings.iter().map(|x| s(x.clone())).collect();
         o.push(("strings", J::Arr(strs)));
         let mut out = String::new();
